@@ -1,6 +1,7 @@
 """C06 TCP progress — structural causes of the three named stalls: lost
 wake-ups (R10, abstract evaluation of wake guards), in-flight accounting (R9),
 armed drop callback on every (re)transmission."""
+import simlib
 import q, engines, handlers
 from simlib import is_node, strip_targs, walk
 
@@ -329,6 +330,12 @@ def check(run):
     qi = fx.fn1('sim::queue::incoming_packet')
     mvd = [a for a in q.field_accesses(qi, {P + '::drop_fun'}) if a.kind == 'move']
     run.ok('R4', 'drop-moves-callback-out', 'sim::queue::incoming_packet', qi.loc(), 'fact used above: the dropping hop moves drop_fun out of the packet before invoking it (%d site)' % len(mvd), nontrivial=False)
+    run.clause('finite tail-drop queues: the hop\'s byte account is balanced (what the enqueue adds the dequeue subtracts), otherwise the queue fills up on paper and drops every segment (shared with C10)')
+    import p10
+    p10.byte_account_rule(run)
+    run.clause('R1 no closure, handler or packet field is filled by std::move of an object that a later iteration of the same loop moves again (moved-from reuse: only the first segment would carry its drop callback / only the first completion its handler)')
+    nmv = engines.moved_in_loop(run, [f_ for f_ in fx.repo_functions() if f_.file.startswith(simlib.REPO_PREFIX + 'src/')])
+    run.ok('R1', 'moved-from-in-loop', 'scan', '', 'std::move sites inside loops examined: %d' % nmv, nontrivial=False)
     run.floor('R10', 5)
     run.floor('R9', 3)
 
